@@ -2,12 +2,15 @@ use crate::engine::*;
 use serde_json::Value;
 
 pub mod c01;
+pub mod c02;
+pub mod child;
 pub mod c04;
 pub mod c05;
 pub mod c06;
 pub mod c07;
 pub mod c08;
 pub mod c09;
+pub mod c10;
 
 pub struct PropInfo {
     pub run: fn(&Ctx, &mut Outcome),
@@ -37,9 +40,27 @@ const EXEC_ASSUMPTIONS: &[&str] = &[
     "no claim for inputs that were not generated",
 ];
 
+const DIFF_ASSUMPTIONS: &[&str] = &[
+    "the unoptimised interpreter (`hyeong run -O0`) is the yardstick; it is tied to the language definition by C01; cases on which level 0 itself disagrees with the reference model are excluded here and counted (C01 reports them)",
+    "the reference model only classifies (terminates / exits / encoding error / does not terminate within the budget)",
+    "non-terminating programs: only prefix-compatibility of the outputs under a step budget is decided",
+    "a wall-clock watchdog expiry is reported as inconclusive (exit 2), never as a violation; CPU-limit expiry of an optimised run whose unoptimised twin finished is reported as a violation",
+    "no claim for inputs that were not generated",
+];
+
+const C10_ASSUMPTIONS: &[&str] = &[
+    "a read through the child's standard input moves the file offset shared with the parent (same open file description via dup): any consumption of input is visible as offset != 0",
+    "the child (`hv child-optimize`) does nothing but parse, call optimize::optimize and print one marker line; it is built from the current /repo tree",
+    "`always finishes` is decided as: CPU time <= 20 s for programs of <= 60 commands whose values stay below ~2^750 in the reference model (expected cost: milliseconds); the complexity bound itself is not decidable by testing",
+    "programs whose values explode within the speculation horizon are excluded and counted (slow arithmetic is not a violation)",
+    "wall-clock watchdog expiry is inconclusive (exit 2), CPU-limit expiry is a violation",
+];
+
 pub fn info(id: &str) -> Option<PropInfo> {
     Some(match id {
         "C01" => PropInfo { run: c01::run, replay: c01::replay, gates: c01::gates, rule: c01::RULE, assumptions: EXEC_ASSUMPTIONS },
+        "C02" => PropInfo { run: c02::run, replay: c02::replay, gates: c02::gates, rule: c02::RULE, assumptions: DIFF_ASSUMPTIONS },
+        "C10" => PropInfo { run: c10::run, replay: c10::replay, gates: c10::gates, rule: c10::RULE, assumptions: C10_ASSUMPTIONS },
         "C04" => PropInfo { run: c04::run, replay: c04::replay, gates: c04::gates, rule: c04::RULE, assumptions: PARSE_ASSUMPTIONS },
         "C08" => PropInfo { run: c08::run, replay: c08::replay, gates: c08::gates, rule: c08::RULE, assumptions: PARSE_ASSUMPTIONS },
         "C05" => PropInfo { run: c05::run, replay: c05::replay, gates: c05::gates, rule: c05::RULE, assumptions: NUM_ASSUMPTIONS },
@@ -69,6 +90,3 @@ pub fn selftest(ctx: &Ctx, full: bool) -> Result<usize, String> {
     Ok(n)
 }
 
-pub fn child_optimize(_file: &str, _level: &str) -> ! {
-    std::process::exit(2)
-}
